@@ -16,9 +16,9 @@ ID = "C07"
 LEVEL = "exploration"
 TECHNIQUE = "runtime monitor: cross-process differential digests (hash seed, process history, pauses, wall-clock speed varied) + per-fire delivery-order check"
 RULE = ("each case is a batch of 6 generated stochastic programs (float/int/Duration clocks, seeded streams, stochastic "
-        "delays, simulation statistics, 1-2 fan-out event types with 2-4 listeners each) executed by 7 child "
+        "delays, simulation statistics, 1-2 fan-out event types with 2-4 listeners each) executed by 8 child "
         "interpreters: PYTHONHASHSEED in {0, 1, 4242, 7, random} x prior activity in {none, 3000 events, objects + "
-        "unrelated replication} x pauses x injected sleeps x bounded chunks (run_up_to, last chunk beyond the end); non-trivial = program with >= 10 executed events, >= 4 "
+        "unrelated replication} x pauses x injected sleeps x bounded chunks (run_up_to, last chunk beyond the end) x earlier replications of the same experiment (half of the programs run as replication r with persistent streams re-seeded by a stream updater); non-trivial = program with >= 10 executed events, >= 4 "
         "listener deliveries and >= 2 listener draws; distinct = canonical program hash")
 ASSUMPTIONS = ["'independent of wall-clock speed' is observed through injected sleeps and forced pauses only",
                "event ids and object identities are never part of a digest; only their effect on order would show"]
@@ -43,6 +43,13 @@ def gen_case(rng, tier, i):
         add_fanout(rng, p)
         if rng.random() < 0.8:
             add_stats(rng, p, watch=False)
+        if k % 2 == 1:
+            # run as replication r of an experiment: persistent streams re-seeded by a stream updater before initialize
+            for sp in p["streams"]:
+                sp.pop("via", None)
+                sp.setdefault("seed", rng.choice([0, 10, rng.randint(1, 10 ** 6)]))
+            p["experiment"] = {"updater": rng.choice(["simple", "table"]), "rep": rng.randint(0, 3),
+                               "table": [rng.randint(0, 10 ** 6) for _ in range(4)], "default_first": rng.random() < 0.3}
         progs.append(p)
     cfgs = [{"hashseed": "0", "prior": "none", "pauses": [], "sleeps": False},
             {"hashseed": "1", "prior": "events", "pauses": [], "sleeps": False},
@@ -51,7 +58,9 @@ def gen_case(rng, tier, i):
             {"hashseed": str(rng.randint(2, 2 ** 32 - 1)), "prior": "events", "pauses": [], "sleeps": True},
             {"hashseed": "random", "prior": "objects", "pauses": [rng.randint(1, 9)], "sleeps": False},
             {"hashseed": "7", "prior": "none", "pauses": [], "sleeps": False,
-             "chunks": sorted([rng.choice([0.1, 0.25, 0.4]), rng.choice([0.5, 0.75, 0.9])]) + [rng.choice([1.25, 2.0])]}]
+             "chunks": sorted([rng.choice([0.1, 0.25, 0.4]), rng.choice([0.5, 0.75, 0.9])]) + [rng.choice([1.25, 2.0])]},
+            {"hashseed": "11", "prior": "none", "pauses": [], "sleeps": False,
+             "earlier_reps": rng.choice([[0], [0, 1], [0, 1, 2], [3, 1], [2, 2]])}]
     return {"programs": progs, "configs": cfgs}
 
 
